@@ -15,6 +15,15 @@
 
 use serde::{Deserialize, Deserializer, Serializer};
 
+/// Hex decoding for untrusted input. `grin_util::from_hex` slices the string two bytes at a
+/// time and panics inside a multi-byte character, so anything that is not ASCII is refused first.
+pub fn from_hex(hex: &str) -> Result<Vec<u8>, String> {
+	if !hex.is_ascii() {
+		return Err(hex.to_string());
+	}
+	crate::grin_util::from_hex(hex)
+}
+
 /// Seralizes a byte string into base64
 pub fn as_base64<T, S>(bytes: T, serializer: S) -> Result<S::Ok, S::Error>
 where
@@ -36,8 +45,10 @@ where
 
 /// Serializes an Option<secp::Signature> to and from hex
 pub mod option_rangeproof_hex {
+	use super::from_hex;
+	use crate::grin_util::secp::constants::MAX_PROOF_SIZE;
 	use crate::grin_util::secp::pedersen::RangeProof;
-	use crate::grin_util::{from_hex, ToHex};
+	use crate::grin_util::ToHex;
 	use serde::de::{Error, IntoDeserializer};
 	use serde::{Deserialize, Deserializer, Serializer};
 
@@ -60,7 +71,13 @@ pub mod option_rangeproof_hex {
 		Option::<String>::deserialize(deserializer).and_then(|res| match res {
 			Some(string) => from_hex(&string)
 				.map_err(|err| Error::custom(err.to_string()))
-				.and_then(|val| Ok(Some(RangeProof::deserialize(val.into_deserializer())?))),
+				.and_then(|val| {
+					// the RangeProof decoder indexes a fixed-size buffer
+					if val.len() > MAX_PROOF_SIZE {
+						return Err(Error::custom("range proof too long"));
+					}
+					Ok(Some(RangeProof::deserialize(val.into_deserializer())?))
+				}),
 			None => Ok(None),
 		})
 	}
@@ -130,7 +147,8 @@ pub mod ov3_serde {
 
 /// Serializes an ed25519 PublicKey to and from hex
 pub mod dalek_seckey_serde {
-	use crate::grin_util::{from_hex, ToHex};
+	use super::from_hex;
+	use crate::grin_util::ToHex;
 	use ed25519_dalek::SecretKey as DalekSecretKey;
 	use serde::{Deserialize, Deserializer, Serializer};
 
@@ -158,7 +176,8 @@ pub mod dalek_seckey_serde {
 
 /// Serializes an ed25519 PublicKey to and from hex
 pub mod dalek_pubkey_serde {
-	use crate::grin_util::{from_hex, ToHex};
+	use super::from_hex;
+	use crate::grin_util::ToHex;
 	use ed25519_dalek::PublicKey as DalekPublicKey;
 	use serde::{Deserialize, Deserializer, Serializer};
 
@@ -186,7 +205,8 @@ pub mod dalek_pubkey_serde {
 
 /// Serializes an x25519 PublicKey to and from hex
 pub mod dalek_xpubkey_serde {
-	use crate::grin_util::{from_hex, ToHex};
+	use super::from_hex;
+	use crate::grin_util::ToHex;
 	use serde::{Deserialize, Deserializer, Serializer};
 	use x25519_dalek::PublicKey as xDalekPublicKey;
 
@@ -297,7 +317,8 @@ pub mod option_dalek_pubkey_serde {
 	use serde::de::Error;
 	use serde::{Deserialize, Deserializer, Serializer};
 
-	use crate::grin_util::{from_hex, ToHex};
+	use super::from_hex;
+	use crate::grin_util::ToHex;
 
 	///
 	pub fn serialize<S>(key: &Option<DalekPublicKey>, serializer: S) -> Result<S::Ok, S::Error>
@@ -339,7 +360,8 @@ pub mod option_xdalek_pubkey_serde {
 	use serde::{Deserialize, Deserializer, Serializer};
 	use x25519_dalek::PublicKey as xDalekPublicKey;
 
-	use crate::grin_util::{from_hex, ToHex};
+	use super::from_hex;
+	use crate::grin_util::ToHex;
 
 	///
 	pub fn serialize<S>(key: &Option<xDalekPublicKey>, serializer: S) -> Result<S::Ok, S::Error>
@@ -380,7 +402,8 @@ pub mod dalek_sig_serde {
 	use serde::{Deserialize, Deserializer, Serializer};
 	use std::convert::TryFrom;
 
-	use crate::grin_util::{from_hex, ToHex};
+	use super::from_hex;
+	use crate::grin_util::ToHex;
 
 	///
 	pub fn serialize<S>(sig: &DalekSignature, serializer: S) -> Result<S::Ok, S::Error>
@@ -415,7 +438,8 @@ pub mod option_dalek_sig_serde {
 	use serde::{Deserialize, Deserializer, Serializer};
 	use std::convert::TryFrom;
 
-	use crate::grin_util::{from_hex, ToHex};
+	use super::from_hex;
+	use crate::grin_util::ToHex;
 
 	///
 	pub fn serialize<S>(sig: &Option<DalekSignature>, serializer: S) -> Result<S::Ok, S::Error>
